@@ -127,6 +127,14 @@ fn wrap_parens(rng: &mut Rng, text: &str, cfg: &Cfg) -> Option<String> {
     if a >= b || b > text.len() || !text.is_char_boundary(a) || !text.is_char_boundary(b) {
         return None;
     }
+    // a parenthesised expression followed by `(`, a string or a table on a later line would become
+    // a call of the new parenthesised prefix (valid, but a different program whose odd layout
+    // trips unrelated known quirks): not generated
+    if let Some(c) = text[b..].trim_start().chars().next() {
+        if matches!(c, '(' | '{' | '"' | '\'' | '[' | '`') {
+            return None;
+        }
+    }
     let (l, r) = match rng.below(4) {
         0 => ("( ", " )"),
         1 => ("((", "))"),
